@@ -3,7 +3,7 @@
 import json, os
 
 BASELINE_OFF = ("for m in . ./staging/src/github.com/kubewharf/apiserver-runtime; do "
-                "(cd /repo/$m && GOFLAGS=-mod=mod go test -json -vet=off -count=1 -timeout 25m ./...) || exit 1; done")
+                "(cd /repo/$m && go test -mod=mod -json -vet=off -count=1 -timeout 25m ./...); done")
 
 # id -> (technique, level text, level note, design ref)
 CLAIMED = {
@@ -12,6 +12,24 @@ CLAIMED = {
         "Generated-input search: MatchPolicies / RuleMatches / ClusterInfo.MatchAttributes are compared with an independent reference matcher written from docs/en/design.md on ~3e5 (quick) / ~3e7 (thorough) generated (policy list, request) pairs over tiny alphabets, plus order/permutation/fresh-instance metamorphic relations and a complete enumeration of every list of length <=3 over {a,-a,b,-b,*,''} for each field matcher. Exploration, not proof: absence of a counterexample within these bounds.",
         "Trusted: the reference matcher (harness/internal/refmodel/matcher.go), rapid v1.3.0, Go runtime. Globs only with one trailing '*'; '-' entries in nonResourceURLs are treated as never matching (documented as unsupported).",
         "DESIGN.md 4/C01",
+    ),
+    "C17": (
+        "metamorphic property-based testing through the real admission plugin (rapid) + bounded-exhaustive per-field list enumeration",
+        "Generated-input search: policies from the C01 rule generator are admitted by the real plugin (Admit, create/update); for every request of a 499-tuple probe set the gateway's own RuleMatches/MatchPolicies must agree before vs after normalisation, and Admit must be idempotent; plus every list of length <=3 over {a,-a,b,-b,*,''} in each of the seven list fields. Exploration within these bounds.",
+        "Trusted: rapid, Go runtime; the oracle is the gateway's matcher itself on the un-normalised rule (independent of C01's correctness).",
+        "DESIGN.md 4/C17",
+    ),
+    "C20": (
+        "property-based testing of the registered REST strategies through rest.BeforeCreate/BeforeUpdate against the stated conventions (rapid)",
+        "Generated-input search over (stored, submitted) object pairs with any subset of labels/annotations/spec/status/generation/other metadata re-drawn (including nothing), using the strategy objects the gateway's own NewRESTStorageProvider registers (taken out of the generic registry stores it builds), for UpstreamCluster, RateLimitCondition and RateLimitCondition under UpstreamCluster's strategies (non-empty status). Exploration.",
+        "Trusted: k8s.io/apiserver rest.BeforeCreate/BeforeUpdate, apiequality.Semantic, rapid. etcd-backed storage is replaced by a never-used stub; nil-vs-empty collections are not generated (same object on the wire).",
+        "DESIGN.md 4/C20",
+    ),
+    "C07": (
+        "property-based testing of the allocation arithmetic against a validity predicate + model-based report histories on the real limiter (rapid state machine)",
+        "Generated-input search: (a) calculateNextQuota (verif hook) on 2e5/3e6 numeric tuples biased to full / over-allocation, new instances and small limits; (b) state-machine histories (reports by honest instances, new instances, global-limit changes, reclaim) through the real UpdateRateLimitConditionStatus with local and API-backed write-through stores, checking every answer, the sum clauses, store contents and the recorded sum after every step. Concurrent overlap of reports (schedules) is not explored by this check. Exploration.",
+        "Trusted: rapid, the fake gateway clientset, scripted elector / lister stubs, the validity predicate written from the statement. Instances are honest (echo the last answer).",
+        "DESIGN.md 4/C07",
     ),
 }
 
